@@ -104,11 +104,11 @@ def handle (toks : List String) : Option String :=
       let res := sessionS r bs
       s!"ok {if res.2.2 then 1 else 0} {"|".intercalate (res.1.map showBatch)} {showList toString res.2.1}"
     | _, _, _, _ => "bad-op"
-  | ["merge.plan", specs, ts] => some <|
+  | ["merge.plan", strict, specs, ts] => some <|
     let parts := if ts == "." then [] else ts.splitOn "/"
     match parseList? parseSpec? specs, (List.range parts.length).mapM (fun i => parseTarget? i (parts.getD i "")) with
     | some specs, some ts =>
-      let plan := PqModel.Refine.planOf specs ts
+      let plan := PqModel.Refine.planOf (strict == "1") specs ts
       s!"ok {showList (fun (x : Nat × Nat) => s!"{x.1}:{x.2}") plan}"
     | _, _ => "bad-op"
   | ["merge.cmp", specs, a, b] => some <|
